@@ -14,7 +14,7 @@ import (
 
 // OpenIndex opens an index file previously created using the IndexWriter.
 func OpenIndex(file string, opts ...IndexOption) (*Index, error) {
-	db, err := bbolt.Open(file, 0644, &bbolt.Options{OpenFile: openfile.OpenFile(openfile.Options{FailIfFileDoesntExist: true})})
+	db, err := bbolt.Open(file, 0644, &bbolt.Options{ReadOnly: true, OpenFile: openfile.OpenFile(openfile.Options{FailIfFileDoesntExist: true})})
 	if err != nil {
 		return nil, err
 	}
